@@ -27,6 +27,8 @@ import (
 func (n *RaftNode) CreateBackup() error {
 	n.Lock()
 	defer n.Unlock()
+	n.fsmMu.RLock()
+	defer n.fsmMu.RUnlock()
 
 	v := n.balloon.Version()
 	metadata := fmt.Sprintf("%d", v-1)
